@@ -207,9 +207,7 @@ func ruleTaintAlloc(r *Run) {
 			continue
 		}
 		paths := r.Paths(fn)
-		if len(paths) > 3000 {
-			paths = paths[:3000]
-		}
+		paths = r.capPaths(fn, paths, 20000)
 		r.Analysed(fn, len(paths))
 		for pi := range paths {
 			path := &paths[pi]
